@@ -5,7 +5,8 @@ import (
 )
 
 func init() {
-	props["C01"] = &prop{gen: genC01, exec: execC01}
+	props["C01"] = &prop{gen: genC01}
+	execs["C01"] = execC01
 }
 
 func execC01(in string) string {
